@@ -125,3 +125,23 @@ Example C02_parens_override_example :
   parse_tokens builtin_table TmEof (toks p) = Ok (ABinary n_mul (ABinary n_add (ARef [97]) (ARef [97])) (ARef [97])).
 Proof. vm_compute. split; reflexivity. Qed.
 Print Assumptions C02_parens_override_example.
+
+(* EVERY ACCEPTED PARSE IS THE DOCUMENTED GROUPING. For every text the parser accepts as one expression, the tree it returns is
+   well-formed and its minimal spelling [minp t] - parentheses exactly where the binding powers demand them - is accepted by the
+   grammar and denotes it ([wfp], [strip]); parsing that spelling's tokens gives the tree back. So the tree of ANY accepted text
+   is the tree the documented precedence / associativity rules assign to some fully explicit spelling of it: the parser has no
+   grouping of its own (Lemmas/PrattComplete.v + RoundTrip.v). *)
+From EE Require Import LeastNesting PrattComplete LexPrintExpr Unconditional Api.
+Theorem C02_every_accepted_parse_is_the_documented_grouping : forall tbl s t, tbl_complete_okb tbl = true ->
+  api_parse tbl s = Ok t -> (forall es, t <> AStmt es) ->
+  wf tbl t = true /\ wfp tbl (minp tbl t) = true /\ strip (minp tbl t) = t /\ parse_tokens tbl TmEof (etoks tbl t) = Ok t.
+Proof.
+  intros tbl s t HC H NS. destruct (accepted_premises tbl s t HC H) as [P | ->]; [|exfalso; exact (NS [] eq_refl)].
+  pose proof (top_round_trip tbl t P) as RT.
+  unfold premises in P. apply andb_prop in P as [HT P].
+  assert (P1 : premises1 tbl t = true) by (destruct t; try exact P; exfalso; exact (NS es eq_refl)).
+  destruct (premises1_ok tbl t P1) as (W & _ & _).
+  split; [exact W|]. split; [exact (minp_wfp tbl t W)|]. split; [exact (minp_strip tbl t W)|].
+  destruct t; try exact RT. exfalso; exact (NS es eq_refl).
+Qed.
+Print Assumptions C02_every_accepted_parse_is_the_documented_grouping.
